@@ -19,7 +19,7 @@ import (
 // the grammar's code block and is also known to the reference model.
 type Spec struct {
 	R   int  // action return: 0 node string, 1 nil, 2 []byte copy of text, 3 first label value, 4 id
-	E   int  // error: 0 none, 1 own always, 2 own when hash%3==0, 3 sentinel always, 4 sentinel when hash%2==0, 5 errors.Join(own, sentinel) always
+	E   int  // error: 0 none, 1 own always, 2 own when hash%3==0, 3 sentinel always, 4 sentinel when hash%2==0, 5 errors.Join(own, sentinel) always, 6 a slice-typed (uncomparable) error always
 	P   int  // panic: 0 none, 1 error when hash%5==0, 2 string when hash%5==0, 3 int when hash%7==0, 4 error always
 	B   int  // predicate bool: 0 true, 1 false, 2 coin(labels, event index), 3 state n even, 4 coin(labels)
 	S   int  // state ops bitmask (state blocks): 1 inc n, 2 append id to s, 4 box push id, 8 set k<id%3>=off, 16 delete k<(id+1)%3>
@@ -51,6 +51,12 @@ var ErrSentinel = errors.New("sentinel")
 type OwnErr struct{ ID int }
 
 func (e *OwnErr) Error() string { return "E" + strconv.Itoa(e.ID) }
+
+// SliceErr is an error whose dynamic type is not comparable (user code may well return such a
+// value, e.g. a list of field errors): a runtime that compares Inner errors with == panics on it.
+type SliceErr []string
+
+func (e SliceErr) Error() string { return "SE" + strings.Join(e, ",") }
 
 // PanicVal is the non-error, non-string panic payload (P=3).
 type PanicVal struct{ ID int }
@@ -93,6 +99,8 @@ func (sp Spec) ErrKind(id, off int) int {
 		}
 	case 5:
 		return 3
+	case 6:
+		return 4
 	}
 	return 0
 }
@@ -423,6 +431,8 @@ func (sp Spec) fault(id, off int) error {
 		return ErrSentinel
 	case 3:
 		return errors.Join(&OwnErr{ID: id}, ErrSentinel)
+	case 4:
+		return SliceErr{strconv.Itoa(id)}
 	}
 	return nil
 }
